@@ -1741,20 +1741,104 @@ row('C20', NXT, 'total_duration', _let('total_duration', BIN('Mul', FROM(F(SELF_
 
 
 def _last_tick_mirror(ctx, hfn):
-    """on an even span count the last tick's progress is mirrored -- and nothing else touches it"""
-    asg = assignments(hfn, 'last_tick_progress', [])
-    if len(asg) != 1:
-        return False, 'expected exactly one re-assignment of the last tick progress (the mirroring), found %d' % len(asg), None
-    r, ln, anc = asg[0]
-    if not BIN('Sub', K(1.0), L('last_tick_progress')).m(ctx, r):
-        return False, 'the last tick progress is not mirrored as `1 - progress`', ln
-    conds = [a for a in anc if isinstance(a, dict) and a.get('k') == 'if']
-    want = BIN('Eq', BIN('Rem', F(SELF_, 'span_count'), K(2)), K(0))
-    ok = bool(conds) and want.m(ctx, conds[-1]['c'])
-    return ok, '' if ok else 'the last tick progress is not mirrored exactly when the span count is even', ln
+    """on an even span count the last tick's progress is mirrored (1 - p), otherwise it is p -- as the decision tree of the
+    `path_progress` the LastTick event is built with (mutable local re-assigned under an `if`, an `if` expression, or a
+    helper method: the same tree)"""
+    import symeval as SE
+    from hp import canon
+    last_why = ''
+    for dpt in (0, 1, 2):
+        vh = hfn if dpt == 0 else H.inlined_fn(ctx.facts, hfn, depth=dpt)
+        c2 = Ctx(ctx.facts, H.binding_inits(vh), vh)
+        arms = []
+
+        def va(n, anc):
+            if n.get('k') == 'match' and not n.get('src', '').startswith('TryDesugar'):
+                for a_ in n['arms']:
+                    if 'SliderEventsIterState::LastTick' in repr(a_['pat']):
+                        arms.append(a_['body'])
+        H.walk(vh['body'], va)
+        if len(arms) != 1:
+            last_why = 'expected one LastTick state arm, found %d' % len(arms)
+            continue
+        found = []
+
+        def query(st, env, ev):
+            lits = []
+
+            def vs(n, anc):
+                if n.get('k') == 'struct' and (n.get('adt') or '').endswith('SliderEvent'):
+                    kd = [f for f in n['fields'] if f['n'] == 'kind']
+                    if kd and 'LastTick' in repr(kd[0]['e']):
+                        lits.append(n)
+            holders = []
+
+            def vs2(n, anc):
+                if n.get('k') == 'struct' and (n.get('adt') or '').endswith('SliderEvent'):
+                    kd = [f for f in n['fields'] if f['n'] == 'kind']
+                    if kd and 'LastTick' in repr(kd[0]['e']):
+                        blks = [a_ for a_ in anc if a_.get('k') == 'block' and a_.get('stmts')]
+                        holders.append(blks[-1] if blks else None)
+            if isinstance(st, dict) and st.get('k') in ('ret', 'call', 'struct', 'slet'):
+                H.walk(st, vs)
+                H.walk(st, vs2)
+            if lits:
+                pp = [f for f in lits[0]['fields'] if f['n'] == 'path_progress']
+                if pp:
+                    blk = holders[0] if holders else None
+                    if blk is not None and blk is not st:
+                        # the literal is built by a helper that was inlined: run the helper's statements first
+                        t = ev.seq(list(blk.get('stmts', [])), None, dict(env), lambda env2, tl: ev.value(pp[0]['e'], env2),
+                                   kret=lambda vt, env2=None: ('v', {'k': 'returned'}))
+                    else:
+                        t = ev.value(pp[0]['e'], env)
+                    found.append(t)
+                    return t
+            return None
+        ev = SE.SymEval(query, budget=8000)
+        body = arms[0]
+        try:
+            if body.get('k') == 'block':
+                tree = ev.seq(list(body.get('stmts', [])), body.get('expr'), {}, lambda env, tl: (
+                    query(tl, env, ev) or ('v', {'k': 'end'})) if tl is not None else ('v', {'k': 'end'}),
+                    kret=lambda vt, env=None: ('v', {'k': 'returned'}))
+            else:
+                tree = query(body, {}, ev) or ('v', {'k': 'end'})
+        except SE.Stop:
+            last_why = 'LastTick arm too large to evaluate'
+            continue
+        if not found:
+            last_why = 'no LastTick event literal found in the LastTick state'
+            continue
+        t = found[0] if tree[0] == 'v' and isinstance(tree[1], dict) and tree[1].get('k') in ('end', 'returned') else tree
+        # strip conditions above that do not concern the progress (none expected)
+        if t[0] != 'ite':
+            last_why = 'the last tick progress does not depend on the parity of the span count'
+            continue
+        _, c, th, el = t
+        if c[0] != 'e' or th[0] != 'v' or el[0] != 'v':
+            last_why = 'the last tick progress is decided by more than the parity of the span count'
+            continue
+        ce = strip(c[1])
+        even = None
+        if BIN('Eq', BIN('Rem', F(ANY(), 'span_count'), K(2)), K(0)).m(c2, ce):
+            even = True
+        elif BIN('Ne', BIN('Rem', F(ANY(), 'span_count'), K(2)), K(0)).m(c2, ce) or \
+                BIN('Eq', BIN('Rem', F(ANY(), 'span_count'), K(2)), K(1)).m(c2, ce):
+            even = False
+        if even is None:
+            last_why = 'the last tick progress is not mirrored exactly when the span count is even'
+            continue
+        mirrored, plain = (th[1], el[1]) if even else (el[1], th[1])
+        m0 = strip(mirrored)
+        ok = isinstance(m0, dict) and m0.get('k') == 'binary' and m0.get('op') == 'Sub' and \
+            c2.const_value(m0['a']) == 1.0 and canon(strip(m0['b'])) == canon(strip(plain))
+        if ok:
+            return True, '', None
+        last_why = 'on an even span count the last tick progress is not `1 - progress` of the same progress'
+    return False, last_why, None
 
 
-_last_tick_mirror.positive = True
 row('C20', NXT, 'last-tick-mirrored-on-even-span-count', _last_tick_mirror)
 SPANP = PARAM_TY('i32')      # the span index handed to generate_ticks (whatever it is called)
 row('C20', GENT, 'reversed', _let('reversed', BIN('Eq', BIN('Rem', SPANP, K(2)), K(1))))
